@@ -189,9 +189,21 @@ def shrink(mod, modname, job, target, pool, budget_runs=200, budget_s=120):
 
 
 # ----------------------------------------------------------------------------- evidence
+def _out_root():
+    """evidence and replays of runs against a scratch copy (mutants, seeded changes: VERIF_REPO set) must never
+    overwrite the evidence of /repo itself"""
+    repo = os.path.realpath(os.environ.get("VERIF_REPO", "/repo"))
+    if repo != os.path.realpath("/repo"):
+        import tempfile
+        d = os.path.join(tempfile.gettempdir(), "verif_scratch_out")
+        os.makedirs(d, exist_ok=True)
+        return d
+    return VERIF
+
+
 def write_evidence(prop, payload):
-    os.makedirs(os.path.join(VERIF, "evidence"), exist_ok=True)
-    path = os.path.join(VERIF, "evidence", f"{prop}.json")
+    os.makedirs(os.path.join(_out_root(), "evidence"), exist_ok=True)
+    path = os.path.join(_out_root(), "evidence", f"{prop}.json")
     tmp = path + ".tmp"
     with open(tmp, "w") as fh:
         json.dump(jsonable(payload), fh, indent=1, sort_keys=True)
@@ -200,8 +212,8 @@ def write_evidence(prop, payload):
 
 
 def write_replay(prop, verif_seed, index, payload):
-    os.makedirs(os.path.join(VERIF, "replays"), exist_ok=True)
-    path = os.path.join(VERIF, "replays", f"{prop}-{verif_seed}-{index}.json")
+    os.makedirs(os.path.join(_out_root(), "replays"), exist_ok=True)
+    path = os.path.join(_out_root(), "replays", f"{prop}-{verif_seed}-{index}.json")
     with open(path, "w") as fh:
         json.dump(jsonable(payload), fh, indent=1, sort_keys=True)
     return path
